@@ -15,6 +15,7 @@
       disjoint ones; and adding rules can only shrink the accepted set (`validate_antitone`).
 -/
 import LW.Proofs.PostSelInv
+import LW.Proofs.C07
 
 namespace LW.PostSelProps
 
@@ -67,5 +68,24 @@ example :
 example : ((PS.new false).add (.many [.int 0, .int 1]) (.one (.int 1))).toOption.isSome = true ∧
     (do let p ← (PS.new false).add (.many [.int 0, .int 1]) (.one (.int 1))
         p.add (.one (.int 1)) (.one (.int 0))).toOption.isSome = false := by decide
+
+/-- the acceptance test of the sampling loops (C07 `acceptState_spec`) stated with the OBJECT the user
+holds: a detected state is returned iff it meets the heralds, and its herald-free form is accepted by
+the PostSelection object's `validate` (whatever history of `add` calls built it, rules sharing modes
+included) and holds at least `min_detection` photons -/
+theorem acceptState_with_object (p : PS) (outHer : Dict) (minDet : Nat) (s hs : FState)
+    (hr : ∀ r ∈ p.rules, ∀ m ∈ r.modes, m < (removeHeralds s outHer.keys).length) :
+    acceptState outHer p.rules minDet s = some hs ↔
+      heraldsOk outHer s = true ∧ hs = removeHeralds s outHer.keys ∧
+      p.validate hs = .ok true ∧ minDet ≤ photons hs := by
+  rw [Proofs.C07.acceptState_spec]
+  constructor
+  · rintro ⟨h1, h2, h3, h4⟩
+    refine ⟨h1, h2, ?_, h4⟩
+    rw [validate_is_conjunction p hs (by rw [h2]; exact hr), h3]
+  · rintro ⟨h1, h2, h3, h4⟩
+    refine ⟨h1, h2, ?_, h4⟩
+    rw [validate_is_conjunction p hs (by rw [h2]; exact hr)] at h3
+    exact Except.ok.inj h3
 
 end LW.PostSelProps
